@@ -25,7 +25,7 @@ demo_run() { cp "$DEMO" "$dir/zz_mutant_demo_test.go"; local flags="${DEMO_FLAGS
 clean_ok=1; for i in 1 2; do demo_run || clean_ok=0; done
 git apply "$PATCH" || { echo "SEED $ID $M: patch does not apply"; exit 2; }
 build_ok=1; go build ./... >"$W/build.log" 2>&1 || build_ok=0
-tests_ok=1; go test -vet=off -count=1 ./... >"$W/test.log" 2>&1 || tests_ok=0
+tests_ok=0; for try in 1 2 3; do if go test -vet=off -count=1 ./... >"$W/test.log" 2>&1; then tests_ok=1; break; fi; done  # the suite has wall-clock tests (TestAttackRate) that flake on a loaded machine, also on the clean tree
 fails=0; for i in 1 2 3; do demo_run || fails=$((fails+1)); done
 echo "SEED $ID $M: demo_passes_clean=$clean_ok builds=$build_ok repo_tests_pass=$tests_ok demo_fails_with_patch=$fails/3"
 [ $tests_ok = 1 ] || grep -E "^(--- FAIL|FAIL|panic)" "$W/test.log" | head -5
